@@ -201,6 +201,10 @@ func (f *remoteWrapper) Config() proxyv1alpha1.RateLimitItemConfiguration {
 }
 
 func (f *remoteWrapper) Sync(limitItem proxyv1alpha1.RateLimitItemConfiguration) {
+	// never trust the limiter server beyond the configured global limit,
+	// neither for the first answer (new flow control) nor for a resize
+	limitItem = f.clampToGlobalLimit(limitItem)
+
 	if reflect.DeepEqual(limitItem, f.remoteConfig) {
 		return
 	}
@@ -220,28 +224,46 @@ func (f *remoteWrapper) Sync(limitItem proxyv1alpha1.RateLimitItemConfiguration)
 
 	switch {
 	case limitItem.MaxRequestsInflight != nil && f.Type() == proxyv1alpha1.MaxRequestsInflight:
-		max := limitItem.MaxRequestsInflight.Max
-		globalMax := f.flowControlCache.local.Config().GlobalMaxRequestsInflight.Max
-		if max > globalMax {
-			max = globalMax
-		}
-
-		f.Resize(uint32(max), 0)
+		f.Resize(uint32(limitItem.MaxRequestsInflight.Max), 0)
 		klog.V(2).Infof("[remote limiter] cluster=%q resize flowcontrol schema=[%s], inflight=%v, id=%v",
 			f.flowControlCache.cluster, f.String(), f.flowControlCache.Inflight(), f.flowControlCache.clientID)
 	case limitItem.TokenBucket != nil && f.Type() == proxyv1alpha1.TokenBucket:
-		qps := limitItem.TokenBucket.QPS
-		globalQPS := f.flowControlCache.local.Config().GlobalTokenBucket.QPS
-		if qps > globalQPS {
-			qps = globalQPS
-		}
-
-		f.Resize(uint32(qps), uint32(limitItem.TokenBucket.Burst))
+		f.Resize(uint32(limitItem.TokenBucket.QPS), uint32(limitItem.TokenBucket.Burst))
 		klog.V(2).Infof("[remote limiter] cluster=%q resize flowcontrol schema=[%s], rate=%.1f, id=%v",
 			f.flowControlCache.cluster, f.String(), f.flowControlCache.Rate(), f.flowControlCache.clientID)
 	default:
 		f.GlobalCounterFlowControl = f.newFlowControl(limitItem, newType)
 	}
+}
+
+// clampToGlobalLimit bounds a server provided limit by the global limit of the local schema:
+// max requests inflight in [0, global max], qps in [1, global qps] (a token bucket with
+// zero qps does not limit anything) and burst in [0, global burst].
+// The detail structs are copied because they are shared with the server response.
+func (f *remoteWrapper) clampToGlobalLimit(limitItem proxyv1alpha1.RateLimitItemConfiguration) proxyv1alpha1.RateLimitItemConfiguration {
+	global := f.flowControlCache.local.Config()
+	if limitItem.MaxRequestsInflight != nil && global.GlobalMaxRequestsInflight != nil {
+		limitItem.MaxRequestsInflight = &proxyv1alpha1.MaxRequestsInflightFlowControlSchema{
+			Max: clampInt32(limitItem.MaxRequestsInflight.Max, 0, global.GlobalMaxRequestsInflight.Max),
+		}
+	}
+	if limitItem.TokenBucket != nil && global.GlobalTokenBucket != nil {
+		limitItem.TokenBucket = &proxyv1alpha1.TokenBucketFlowControlSchema{
+			QPS:   clampInt32(limitItem.TokenBucket.QPS, 1, global.GlobalTokenBucket.QPS),
+			Burst: clampInt32(limitItem.TokenBucket.Burst, 0, global.GlobalTokenBucket.Burst),
+		}
+	}
+	return limitItem
+}
+
+func clampInt32(v, min, max int32) int32 {
+	if v > max {
+		v = max
+	}
+	if v < min {
+		v = min
+	}
+	return v
 }
 
 func (f *remoteWrapper) newFlowControl(limitItem proxyv1alpha1.RateLimitItemConfiguration, newType proxyv1alpha1.FlowControlSchemaType) GlobalCounterFlowControl {
